@@ -131,14 +131,44 @@ def _flag_cases(ctx):
         ctx.disagreement('set_seen', {'case': sc[i]})
 
 
+STEP_TIMEOUT = 20.0      # seconds without a tagged response = the command is not answered
+
+
+async def _guard(coro, secs: float = STEP_TIMEOUT):
+    import asyncio
+    return await asyncio.wait_for(coro, secs)
+
+
+async def _writer_do(env, state, op) -> list[bytes]:
+    """run the interfering writer's lines on its own connection; returns them"""
+    if state.get('wconn') is None:
+        state['wconn'] = await env.env.login(env.user, env.password)
+    lines = []
+    for body in R.render_wop(op, env.names):
+        line = b'w%d ' % len(state['wlog']) + body + b'\r\n'
+        state['wlog'].append(line)
+        lines.append(line)
+        r = await _guard(state['wconn'].cmd(line))
+        tag = line.split(b' ', 1)[0]
+        want = b' NO' if body == b'SELECT Nope' else b' OK'
+        if tag + want not in r:
+            raise RuntimeError(f'writer: {line!r} -> {r[-200:]!r}')
+    return lines
+
+
 async def _one_program(ctx, kind: str, seed: int, steps: int, weights: dict,
-                       first: list | None = None, final=None, observer: bool = False):
-    """Run one random program; returns (env-kind, init, steps, monitor findings)."""
+                       first: list | None = None, final=None, observer: bool = False,
+                       interfere: float = 0.0):
+    """Run one program; returns (env, init, steps, monitor findings).
+    Queue entries whose kind starts with 'w' (and, with probability `interfere`,
+    random ones) are changes made by ANOTHER connection between two commands of
+    the session under test; they go into the reference as plain state changes."""
+    import asyncio
     import random
     rng = random.Random(f'{ctx.prop}-{ctx.seed}-{kind}-{seed}')
     env = await R.Env(kind).start(rng, prefill=rng.choice([0, 3, 6]) if kind == 'maildir' else 0)
     try:
-        state = {'ref': None, 'cid': 0, 'problems': []}
+        state = {'ref': None, 'cid': 0, 'problems': [], 'wconn': None, 'wlog': []}
 
         def nextcid():
             state['cid'] += 1
@@ -150,9 +180,12 @@ async def _one_program(ctx, kind: str, seed: int, steps: int, weights: dict,
         state['ref'] = ref
         queue = list(first or [])
         if steps <= 0:
-            steps = len(queue)
+            steps = sum(1 for c in queue if not c['k'].startswith('w'))
         stepsout = []
         obs = None
+        # what the session under test has NOT been told yet about its selected mailbox
+        dirty_flags = dirty_set = False
+        known: list[int] = []           # UIDs it knows (as of its last synchronising command)
         for k in range(steps):
             if observer and k == 1 and ref.sel is not None:
                 # another session that only watches the same mailbox
@@ -160,15 +193,58 @@ async def _one_program(ctx, kind: str, seed: int, steps: int, weights: dict,
                 await obs.send(b'o1 EXAMINE ' + ref.sel[0].encode() + b'\r\n')
             if obs is not None:
                 await obs.send(b'o2 NOOP\r\n')
-            cmd = queue.pop(0) if queue else R.gen_cmd(rng, env, ref, weights, nextcid)
+            # ---- interference by another connection, before this step
+            wops = []
+            while queue and queue[0]['k'].startswith('w'):
+                wops.append(queue.pop(0))
+            if not queue and interfere and k > 0 and rng.random() < interfere:
+                wops += [R.gen_wop(rng, env, ref, nextcid) for _ in range(rng.choice([1, 1, 2]))]
+            wlines = []
+            for op in wops:
+                if op['k'] == 'wappend' and 'cid' not in op:
+                    op['cid'] = nextcid()
+                if 'seqs' in op:      # scenario: addressed by position in the reference mailbox
+                    have = ref._uids(env.names[op['box']])
+                    op['uids'] = [have[q - 1] for q in op['seqs'] if q <= len(have)]
+                wlines += await _writer_do(env, state, op)
+                ref.interfere(op, env.names)
+                if ref.sel and env.names[op['box']] == ref.sel[0]:
+                    dirty_flags = True
+                    dirty_set = dirty_set or op['k'] != 'wstore'
+            if queue:
+                cmd = queue.pop(0)
+            elif dirty_set:
+                cmd = R.gen_uid_cmd(rng, env, ref, nextcid, known)   # numbers/'*' would mean the stale view
+            else:
+                cmd = R.gen_cmd(rng, env, ref, weights, nextcid)
             if cmd['k'] == 'append' and 'cid' not in cmd:
                 cmd['cid'] = nextcid()
             line = env.tag() + b' ' + R.render(cmd, env.names) + b'\r\n'
-            raw = await env.conn.cmd(line)
+            st = {'cmd': cmd, 'wire': line, 'interference': wlines, 'raw': b'', 'out': None,
+                  'dump': stepsout[-1]['dump'] if stepsout else init}
+            # ---- watchdog: every command must get its tagged response
+            try:
+                raw = await _guard(env.conn.cmd(line))
+            except asyncio.TimeoutError:
+                st['raw'] = bytes(env.conn.out)
+                st['out'] = {'cond': None, 'code': None, 'untagged': [], 'extra': []}
+                st['ref_out'] = ref.step(cmd, env.names)
+                st['ref_dump'] = ref.snapshot()
+                stepsout.append(st)
+                state['problems'].append(('answered', f'{cmd["k"]}_not_answered', k, st))
+                return env, init, stepsout, state['problems']
             out = R.read_response(raw, env.contents,
                                   'select' if cmd['k'] == 'select' else 'other')
-            dump = await env.dump()
-            st = {'cmd': cmd, 'wire': line, 'raw': raw, 'out': out, 'dump': dump}
+            st['raw'], st['out'] = raw, out
+            try:
+                dump = await _guard(env.dump(), 3 * STEP_TIMEOUT)
+            except asyncio.TimeoutError:
+                stepsout.append(st)
+                st['ref_out'] = ref.step(cmd, env.names)
+                st['ref_dump'] = ref.snapshot()
+                state['problems'].append(('answered', f'probe_not_answered_after_{cmd["k"]}', k, st))
+                return env, init, stepsout, state['problems']
+            st['dump'] = dump
             # ---- monitors (against the property statement, via PyRef)
             was_ro = ref.sel is not None and ref.sel[1]
             want = ref.step(cmd, env.names)
@@ -179,12 +255,30 @@ async def _one_program(ctx, kind: str, seed: int, steps: int, weights: dict,
                 state['problems'].append(('ro_close_ok', 'close_refused_readonly', k, st))
                 break           # the session is still selected: stop comparing here
             stepsout.append(st)
-            if R.canon_out(out) != R.canon_out(want):
+            was_dirty, was_dirty_set = dirty_flags, dirty_set
+            if out['cond'] == 'OK' or ref.sel is None:
+                # a completed command has synchronised the session with its mailbox
+                dirty_flags = dirty_set = False
+                known = ref._uids(ref.sel[0]) if ref.sel else []
+            if was_dirty:
+                # the session had not yet been told about the other connection's change: it may be
+                # sent extra untagged data now; what must hold is the tagged result, which messages
+                # an EXPUNGE removes, and (below) the contents of every mailbox
+                got_c = None if out.get('code') == ('EXPUNGEISSUED',) else out.get('code')
+                bad = out['cond'] != want['cond'] or got_c != want.get('code')
+                if not was_dirty_set and cmd['k'] == 'expunge':
+                    bad = bad or [u for u in out['untagged'] if u[0] == 'EXPUNGE'] != \
+                        [u for u in want['untagged'] if u[0] == 'EXPUNGE']
+                if bad:
+                    state['problems'].append(('response', _classify(cmd, out, want) + '_after_interference',
+                                              k, st))
+                    break
+            elif R.canon_out(out) != R.canon_out(want):
                 state['problems'].append(('response', _classify(cmd, out, want), k, st))
                 break
             if R.canon_dump(dump) != R.canon_dump(st['ref_dump']):
-                state['problems'].append(('contents', _classify_dump(cmd, dump, st['ref_dump']),
-                                          k, st))
+                state['problems'].append(('contents', _classify_dump(cmd, dump, st['ref_dump'])
+                                          + ('_after_interference' if was_dirty else ''), k, st))
                 break
             if not all(b['probe_consistent'] for b in dump):
                 state['problems'].append(('probe', 'probe_inconsistent', k, st))
@@ -251,7 +345,8 @@ def _replay_obj(kind, init, steps, k=None):
             return [js(x) for x in o]
         return o
     return {'backend': kind, 'failing_step': k,
-            'program': [js(s['wire']) for s in steps],
+            'program': [js(x) for s in steps for x in (s.get('interference') or []) + [s['wire']]],
+            'note': 'lines tagged wN are sent by a second connection between the commands',
             'commands': [js(s['cmd']) for s in steps],
             'last_response': js(steps[-1]['raw']) if steps else None,
             'expected_by_reference': js(steps[-1].get('ref_out')) if steps else None,
@@ -261,16 +356,24 @@ def _replay_obj(kind, init, steps, k=None):
 
 
 def run_programs(ctx, label: str, plan: list, weights: dict, first=None, final=None,
-                 observer=None, on_program=None) -> None:
+                 observer=None, on_program=None, interfere: float = 0.0) -> None:
     """plan: [(kind, n_programs, steps)]"""
     cases, keep = [], []
     hist: dict = {}
     for kind, n, steps in plan:
         for i in range(n):
             f = first(i) if callable(first) else first
-            env, init, sts, problems = run_async(_one_program(
-                ctx, kind, i, steps, weights, f, final,
-                observer(i) if callable(observer) else bool(observer)))
+            try:
+                env, init, sts, problems = run_async(_one_program(
+                    ctx, kind, i, steps, weights, f, final,
+                    observer(i) if callable(observer) else bool(observer), interfere), 600.0)
+            except (TimeoutError, RuntimeError) as exc:
+                stuck = isinstance(exc, TimeoutError)
+                ctx.failure('answered' if stuck else 'response',
+                            f'{kind}: program {label}/{i} did not finish: {exc!r}',
+                            {'backend': kind, 'label': label, 'index': i, 'first': repr(f)[:2000]},
+                            {'kind': 'program_stuck' if stuck else 'writer_refused', 'backend': kind})
+                continue
             if on_program is not None:
                 on_program(kind, init, sts)
             for clause, cls, k, st in problems:
@@ -283,9 +386,16 @@ def run_programs(ctx, label: str, plan: list, weights: dict, first=None, final=N
                 hist[key] = hist.get(key, 0) + 1
                 ctx.count((kind, s['wire'], repr(R.canon_out(s['out']))),
                           nontrivial=s['out']['cond'] == 'OK')
-            if sts:
-                cases.append(R.enc_case(env, init, sts))
-                keep.append((kind, init, sts))
+            # the Coq model has ONE acting session: a case is the part of the program that
+            # precedes the first change by another connection (the rest is monitor-only)
+            pure = sts
+            for j, x in enumerate(sts):
+                if x.get('interference') or x['out']['cond'] is None:
+                    pure = sts[:j]
+                    break
+            if pure:
+                cases.append(R.enc_case(env, init, pure))
+                keep.append((kind, init, pure))
 
     ctx.extra.setdefault('command_histogram', {})[label] = hist
     if keep:
@@ -439,6 +549,27 @@ def scenarios(kind: str) -> list:
         out.append([_app(0), _app(0), _sel(0), _store(ss, 'add', [b'\\Flagged']),
                     _cm('copy', ss, 1), _cm('copy', ss, 1, True), _cm('move', ss, 1, ss == SETS[0]),
                     _fetch(ALL, 1)])
+    # another connection changes flags / delivers / expunges between two commands: EXPUNGE,
+    # UID EXPUNGE and CLOSE must act on the flags the messages have NOW
+    def w(k, **kw):
+        return dict({'k': k, 'box': 0, 'spelled': kw.get('flags', []), 'date': 10 ** 9}, **kw)
+    three = [_app(0), _app(0, [S]), _app(0), _sel(0)]
+    out.append(three + [w('wstore', seqs=[2], op='add', flags=[D]), X[0], _fetch(ALL, 1)])
+    out.append(three + [_store([3], 'add', [D]), w('wstore', seqs=[3], op='delete', flags=[D]), X[0],
+                        _fetch(ALL, 1)])
+    out.append(three + [_store([3], 'add', [D]), w('wstore', seqs=[3], op='delete', flags=[D]),
+                        {'k': 'close'}, _sel(0), _fetch(ALL, 1)])
+    out.append(three + [w('wstore', seqs=[1, 3], op='add', flags=[D]), {'k': 'close'}, _sel(0),
+                        _fetch(ALL, 1)])
+    out.append(three + [_store(ALL, 'add', [D]), w('wstore', seqs=[1], op='replace', flags=[S]),
+                        {'k': 'expunge', 'ss': ALL}, _fetch(ALL, 1)])
+    out.append(three + [w('wstore', seqs=[1], op='add', flags=[b'\\Flagged']),
+                        _store([1], 'add', [S]), w('wstore', seqs=[2], op='add', flags=[D]),
+                        _fetch([2], 4), w('wstore', seqs=[2], op='delete', flags=[S]),
+                        _store([2], 'delete', [D], silent=True), X[0], _fetch(ALL, 1)])
+    out.append(three + [w('wstore', seqs=[1], op='add', flags=[D]), w('wexpunge'), X[0],
+                        _fetch(ALL, 1), w('wappend', flags=[b'\\Flagged']), X[0], _fetch(ALL, 1),
+                        w('wappend', flags=[S]), {'k': 'close'}, _sel(0), _fetch(ALL, 1)])
     # read-only: every command after EXAMINE and in the read-only mailbox
     for first in ([_sel(0, True)], [_sel(2)] if kind == 'dict' else [_sel(2, True)]):
         out.append(first + [_store(ALL, 'add', [D]), _store(ALL, 'add', [S], True, True), X[0],
@@ -472,6 +603,10 @@ def run(ctx) -> None:
         run_programs(ctx, f'scenarios_{kind}', [(kind, len(sc), 0)], R.C10_WEIGHTS,
                      first=lambda i, sc=sc: sc[i])
     run_programs(ctx, 'programs', [('dict', nd, 20), ('maildir', nm, 20)], R.C10_WEIGHTS)
+    # the same with a second connection writing in between (monitor: Python reference)
+    ni = ctx.scale(50, 400)
+    run_programs(ctx, 'interference', [('dict', ni, 16), ('maildir', ni, 16)], R.C10_WEIGHTS,
+                 interfere=0.35)
 
 
 def replay(ctx, obj) -> int:
